@@ -102,6 +102,8 @@ class GModel:
 def check_grid(g, m, where, opkind, cells=True, nodata=True):
     def bad(inv, detail):
         raise Violation(inv, f"{where}: {detail}", opkind)
+    if not isinstance(getattr(g, "data", None), np.ndarray):
+        bad("grid_lost_its_data", f"data is {type(getattr(g, 'data', None))}")
     if (int(g.nrows), int(g.ncols)) != (m.nrows, m.ncols) or \
             tuple(g.data.shape) != (m.nrows, m.ncols):
         bad("shape_differs", f"({g.nrows},{g.ncols}) data {g.data.shape} != "
@@ -515,6 +517,20 @@ class World:
         if len(self.grids) < 5:
             self.add_grid(c, cm)
 
+    def op_rejected_clone(self):
+        """clone with a dtype numpy does not know is rejected; the grid it was
+        asked of stays as it was (checked by check_all)."""
+        g, m, gid = self.pick()
+        bad = self.cs.choice("bad", ["float63", "int7", "notatype"])
+        self.log.ev("rejected_clone", gid, bad)
+        try:
+            g.clone(bad)
+        except Exception:
+            self.ctx.hit("fault.rejected_clone")
+            return
+        raise Violation("invalid_clone_accepted", f"grid#{gid}.clone({bad!r}) "
+                        "did not raise", "rejected_clone")
+
     def op_clip(self):
         cs = self.cs
         g, m, gid = self.pick()
@@ -783,6 +799,7 @@ OPS = [("new", 8, None), ("mutate", 10, "g"), ("save", 9, "g"),
        ("clone", 6, "g"), ("clone_dtype", 5, "g"), ("clip", 6, "g"),
        ("chdir", 2, None), ("cat_caller_edits_grid", 2, "c"),
        ("zip_twice", 3, "s"), ("widen_dtype", 2, "g"),
+       ("rejected_clone", 2, "g"),
        ("restart", 2, "s"), ("cat_new", 3, None), ("cat_delineate", 6, "c"),
        ("cat_dict", 5, "c"), ("cat_clone", 2, "c")]
 
